@@ -82,9 +82,18 @@ TableElemAt(B, T, D, s, e) ==
            lp == FirstLp(a)
            m == IF lp = 0 THEN 0 ELSE MatchParen(T, lp)
            cols == IF m = 0 THEN GErr("index_without_column_list") ELSE QidList(T, lp + 1, m, <<>>)
-           nm == IF cname # "" THEN cname ELSE IF \E i \in a..(IF lp = 0 THEN a ELSE lp - 1) : T[i].k = "qid" THEN T[CHOOSE i \in a..(lp - 1) : T[i].k = "qid"].v ELSE ""
+           \* MySQL: [UNIQUE | FULLTEXT] {KEY | INDEX} [name] [USING type] ( cols );  PostgreSQL: UNIQUE [NULLS NOT DISTINCT] ( cols )
+           k0 == IF (IsWordU(T, a, "UNIQUE") \/ IsWordU(T, a, "FULLTEXT")) /\ (IsWordU(T, a + 1, "KEY") \/ IsWordU(T, a + 1, "INDEX")) THEN a + 2 ELSE a + 1
+           hasNm == lp # 0 /\ k0 < lp /\ T[k0].k = "qid"
+           k1 == IF hasNm THEN k0 + 1 ELSE k0
+           hasUs == lp # 0 /\ k1 + 2 = lp /\ IsWordU(T, k1, "USING") /\ T[k1 + 1].k = "word"
+           nnd == lp # 0 /\ B = "pg" /\ k1 + 3 = lp /\ IsWordU(T, k1, "NULLS") /\ IsWordU(T, k1 + 1, "NOT") /\ IsWordU(T, k1 + 2, "DISTINCT")
+           wellFormed == lp # 0 /\ (k1 = lp \/ (hasUs /\ B = "mysql") \/ nnd) /\ (hasNm => B = "mysql")
+           nm == IF cname # "" THEN cname ELSE IF hasNm THEN T[k0].v ELSE ""
        IN IF ~cols.ok THEN cols
-          ELSE GOk([kind |-> IF IsWordU(T, a, "UNIQUE") THEN "unique" ELSE "index", name |-> nm, cols |-> cols.v, rest |-> Texts(T, m + 1, e)], e)
+          ELSE IF ~wellFormed THEN GErr("index_definition_out_of_order")
+          ELSE GOk([kind |-> IF IsWordU(T, a, "UNIQUE") THEN "unique" ELSE "index", name |-> nm, cols |-> cols.v,
+                    using |-> IF hasUs THEN T[k1 + 1].u ELSE "", fulltext |-> IsWordU(T, a, "FULLTEXT"), rest |-> Texts(T, m + 1, e)], e)
      ELSE IF IsWordU(T, a, "FOREIGN") /\ IsWordU(T, a + 1, "KEY") /\ Tk(T, a + 2).k = "lp" THEN
        LET m1 == MatchParen(T, a + 2)
            from == IF m1 = 0 THEN GErr("unbalanced_fk") ELSE QidList(T, a + 3, m1, <<>>)
@@ -115,7 +124,7 @@ AlterActionAt(B, T, D, s, e) ==
   ELSE LET u == IF T[s].k = "word" THEN T[s].u ELSE T[s].t
            skipCol(i) == IF IsWordU(T, i, "COLUMN") THEN i + 1 ELSE i
            skipIne(i) == IF IsWordU(T, i, "IF") /\ IsWordU(T, i + 1, "NOT") /\ IsWordU(T, i + 2, "EXISTS") THEN i + 3 ELSE i IN
-    CASE u = "ADD" /\ (IsWordU(T, s + 1, "CONSTRAINT") \/ IsWordU(T, s + 1, "FOREIGN") \/ IsWordU(T, s + 1, "UNIQUE") \/ IsWordU(T, s + 1, "PRIMARY")) ->
+    CASE u = "ADD" /\ (IsWordU(T, s + 1, "CONSTRAINT") \/ IsWordU(T, s + 1, "FOREIGN") \/ IsWordU(T, s + 1, "UNIQUE") \/ IsWordU(T, s + 1, "PRIMARY") \/ IsWordU(T, s + 1, "CHECK")) ->
            LET r == TableElemAt(B, T, D, s + 1, e) IN IF ~r.ok THEN r ELSE GOk([k |-> "add_constraint", c |-> r.v], e)
       [] u = "ADD" -> LET c == ColumnDefAt(B, T, D, skipIne(skipCol(s + 1)), e) IN IF ~c.ok THEN c ELSE GOk([k |-> "add_column", col |-> c.v], e)
       [] u = "MODIFY" -> IF B # "mysql" THEN GErr("MODIFY_is_mysql_only")
@@ -240,9 +249,9 @@ ParseDDL(B, sql) ==
             (IF ie THEN GErr("mysql_has_no_DROP_INDEX_IF_EXISTS")
              ELSE IF on > n THEN GErr("mysql_drop_index_needs_ON_table")
              ELSE IF ~(on = a + 1 /\ T[a].k = "qid") THEN GErr("drop_index_name")
-             ELSE LET t == QualName(T, on + 1, n + 1, <<>>) IN IF ~t.ok THEN t ELSE GOk([kind |-> "drop_index", name |-> T[a].v, table |-> t.v, if_exists |-> FALSE], n + 1))
+             ELSE LET t == QualName(T, on + 1, n + 1, <<>>) IN IF ~t.ok THEN t ELSE GOk([kind |-> "drop_index", name |-> T[a].v, qual |-> <<T[a].v>>, table |-> t.v, if_exists |-> FALSE], n + 1))
           ELSE (IF on <= n THEN GErr("pg_drop_index_has_no_ON")
-                ELSE LET nm == QualName(T, a, n + 1, <<>>) IN IF ~nm.ok THEN nm ELSE GOk([kind |-> "drop_index", name |-> nm.v[Len(nm.v)], table |-> <<>>, if_exists |-> ie], n + 1))
+                ELSE LET nm == QualName(T, a, n + 1, <<>>) IN IF ~nm.ok THEN nm ELSE GOk([kind |-> "drop_index", name |-> nm.v[Len(nm.v)], qual |-> nm.v, table |-> <<>>, if_exists |-> ie], n + 1))
      ELSE IF W(1, "CREATE") /\ W(2, "TYPE") /\ B = "pg" THEN
        LET asAt == NextAt(T, D, 3, n + 1, 0, {"AS"})
            nm == QualName(T, 3, asAt, <<>>)
@@ -259,6 +268,33 @@ ParseDDL(B, sql) ==
            parts == SplitAll(T, D, a, e, 0)
            names == [i \in DOMAIN parts |-> QualName(T, parts[i][1], parts[i][2], <<>>)]
        IN IF \E i \in DOMAIN names : ~names[i].ok THEN GErr("malformed_drop_type") ELSE GOk([kind |-> "drop_type", if_exists |-> ie, names |-> [i \in DOMAIN names |-> names[i].v], opt |-> opt], n + 1)
+     ELSE IF W(1, "CREATE") /\ W(2, "EXTENSION") /\ B = "pg" THEN
+       \* CREATE EXTENSION [IF NOT EXISTS] name [WITH] [SCHEMA s] [VERSION v] [CASCADE]; name, s: identifiers; v: identifier or string literal
+       LET ine == W(3, "IF") /\ W(4, "NOT") /\ W(5, "EXISTS")
+           a == IF ine THEN 6 ELSE 3
+           IsName(i) == i <= n /\ T[i].k \in {"word", "qid"}
+           NameOf(i) == IF T[i].k = "qid" THEN T[i].v ELSE T[i].t
+           w1 == IF W(a + 1, "WITH") THEN a + 2 ELSE a + 1
+           hasS == W(w1, "SCHEMA")
+           s1 == IF hasS THEN w1 + 2 ELSE w1
+           hasV == W(s1, "VERSION")
+           vOk == hasV /\ s1 + 1 <= n /\ T[s1 + 1].k \in {"word", "qid", "str"}
+           v1 == IF hasV THEN s1 + 2 ELSE s1
+           casc == W(v1, "CASCADE")
+           endAt == IF casc THEN v1 + 1 ELSE v1
+       IN IF ~IsName(a) THEN GErr("extension_name_expected")
+          ELSE IF hasS /\ ~IsName(w1 + 1) THEN GErr("extension_schema_expected")
+          ELSE IF hasV /\ ~vOk THEN GErr("extension_version_needs_identifier_or_string_literal")
+          ELSE IF endAt # n + 1 THEN GErr("extension_version_needs_identifier_or_string_literal_or_trailing_tokens")
+          ELSE GOk([kind |-> "create_extension", name |-> NameOf(a), if_not_exists |-> ine, schema |-> IF hasS THEN NameOf(w1 + 1) ELSE "",
+                    version |-> IF hasV THEN (IF T[s1 + 1].k = "word" THEN T[s1 + 1].t ELSE T[s1 + 1].v) ELSE "", cascade |-> casc], n + 1)
+     ELSE IF W(1, "DROP") /\ W(2, "EXTENSION") /\ B = "pg" THEN
+       LET ie == W(3, "IF") /\ W(4, "EXISTS")
+           a == IF ie THEN 5 ELSE 3
+           opt == IF W(n, "CASCADE") \/ W(n, "RESTRICT") THEN T[n].u ELSE ""
+       IN IF ~(a <= n /\ T[a].k \in {"word", "qid"}) THEN GErr("extension_name_expected")
+          ELSE IF a + (IF opt = "" THEN 0 ELSE 1) # n THEN GErr("malformed_drop_extension")
+          ELSE GOk([kind |-> "drop_extension", name |-> IF T[a].k = "qid" THEN T[a].v ELSE T[a].t, if_exists |-> ie, opt |-> opt], n + 1)
      ELSE IF W(1, "ALTER") /\ W(2, "TYPE") /\ B = "pg" THEN
        LET RECURSIVE NameEnd(_)
            NameEnd(i) == IF i > n THEN i ELSE IF T[i].k \in {"qid", "dot"} THEN NameEnd(i + 1) ELSE i
@@ -268,8 +304,8 @@ ParseDDL(B, sql) ==
           ELSE IF W(ne, "ADD") /\ W(ne + 1, "VALUE") THEN
             LET a == IF W(ne + 2, "IF") /\ W(ne + 3, "NOT") /\ W(ne + 4, "EXISTS") THEN ne + 5 ELSE ne + 2 IN
             IF Tk(T, a).k # "str" THEN GErr("add_value_label_not_a_string_literal")
-            ELSE IF a = n THEN GOk([kind |-> "alter_type", name |-> nm.v, op |-> "add_value", value |-> T[a].v, place |-> "", ref |-> ""], n + 1)
-            ELSE IF (W(a + 1, "BEFORE") \/ W(a + 1, "AFTER")) /\ a + 2 = n /\ T[n].k = "str" THEN GOk([kind |-> "alter_type", name |-> nm.v, op |-> "add_value", value |-> T[a].v, place |-> T[a + 1].u, ref |-> T[n].v], n + 1)
+            ELSE IF a = n THEN GOk([kind |-> "alter_type", name |-> nm.v, op |-> "add_value", value |-> T[a].v, place |-> "", ref |-> "", ine |-> a = ne + 5], n + 1)
+            ELSE IF (W(a + 1, "BEFORE") \/ W(a + 1, "AFTER")) /\ a + 2 = n /\ T[n].k = "str" THEN GOk([kind |-> "alter_type", name |-> nm.v, op |-> "add_value", value |-> T[a].v, place |-> T[a + 1].u, ref |-> T[n].v, ine |-> a = ne + 5], n + 1)
             ELSE GErr("malformed_add_value")
           ELSE IF W(ne, "RENAME") /\ W(ne + 1, "TO") THEN
             (IF ne + 2 = n /\ T[n].k \in {"qid", "word"} THEN GOk([kind |-> "alter_type", name |-> nm.v, op |-> "rename_to", value |-> IF T[n].k = "qid" THEN T[n].v ELSE T[n].t, place |-> "", ref |-> ""], n + 1)
